@@ -151,10 +151,11 @@ def pool(name, hash_name):
     elif name == "B":  # size-varint boundaries of the entry header: 4 bits, 4+7 bits, 4+7+7 bits
         s = _stream(262145)
         objs = [(3, s[:n]) for n in (15, 16, 2047, 2048, 262143, 262144, 262145)]
-    elif name == "C":  # 64 KiB copy-op limit: long common runs of incompressible bytes
-        x = _noise(70000)
-        objs = [(3, x), (3, b"head65535:" + x[:65535] + b":tail"), (3, b"head65536:" + x[:65536] + b":tail"),
-                (3, b"head65537:" + x[:65537] + b":tail"), (3, x[:65536] + x[:65537])]
+    elif name == "C":  # 64 KiB copy-op limit: common runs of 65535/65536/65537/65545/131073 bytes.
+        # Prefixes of one stream: dulwich's Rust encoder is a byte-level Myers diff (O((N+M)*D)); a
+        # pair of 64 KiB objects that differ in more than a prefix/suffix costs minutes of CPU.
+        y = _stream(131080, b"C")
+        objs = [(3, y[:n]) for n in (65535, 65536, 65537, 65545, 131073, 131080)]
     elif name == "V":  # 64 successive edits of one blob (equal sizes: one 64-byte block replaced per step)
         nb = 100
         blk = lambda i, j: (hashlib.sha1(b"%d/%d" % (i, j)).hexdigest() * 2)[:63].encode() + b"\n"
@@ -391,8 +392,10 @@ def oracle_read(acc, fam, basename, res, ientries, version, hash_name, rpd, orde
     #    orders == "all"; sorted + reversed otherwise (no delta => the cache is never written)
     if orders == "all" and any(r.kind != "full" for r in res):
         orders = _perms(names)
-    elif orders is None or orders in ("all", "few"):
+    elif orders is None or orders == "all":
         orders = [tuple(names), tuple(reversed(names))] if len(names) > 1 else [tuple(names)]
+    elif orders == "few":  # a further index over a pack already read in all orders: Pack[...] below
+        orders = []
     if singles:
         orders = list(orders) + [(n,) for n in names]
     for order in orders:
@@ -1636,14 +1639,18 @@ def run(ctx):
 
     counts = {}
     # ---- W.seq
+    # quick: <=3 / <=2 / <=2 objects x the one-factor-at-a-time configurations;
+    # thorough: the same sizes +1; the full configuration product up to the quick sizes +1 for B and C,
+    # and for pool A the full product up to 3 objects and the one-factor set for the 5040 4-object orders
     kmax = {"A": 3 if q else 4, "B": 2 if q else 3, "C": 2 if q else 3}
     opts = wseq_options(q)
+    lean = wseq_options(True)
     items = []
     for pn in ("A", "B", "C"):
         n = len(pool(pn, "sha1"))
         for idxs in ordered_selections(n, kmax[pn]):
             for hash_name in HASHES:
-                for mode, opt in opts:
+                for mode, opt in (lean if (pn == "A" and len(idxs) == 4) else opts):
                     items.append((pn, idxs, hash_name, mode, opt))
     counts["W.seq"] = add("wseq", items, J * 4)
     # ---- W.ofs / W.slice
